@@ -56,6 +56,15 @@ SHAPES = {
     "never-compared-helper-call": ["s = snapshot(make())"],
     "never-compared-defaultdict": ["from collections import defaultdict", "s = snapshot(defaultdict(list))"],
     "never-compared-defaultdict-filled": ["from collections import defaultdict", "s = snapshot(defaultdict(list, {'a': [1]}))"],
+    # one textual call inside a finally block, reached through both of its bytecode copies (normal exit and exception)
+    "finally-both-paths-fix": ["def site(fail):", "    try:", "        if fail:", "            raise ValueError('x')", "    finally:", "        _ok = 5 == snapshot(4)",
+                               "site(False)", "try:", "    site(True)", "except ValueError:", "    pass"],
+    "finally-both-paths-create": ["def site(fail):", "    try:", "        if fail:", "            raise ValueError('x')", "    finally:", "        _ok = [1, 2] == snapshot()",
+                                  "try:", "    site(True)", "except ValueError:", "    pass", "site(False)"],
+    "finally-both-paths-bound": ["def site(v):", "    try:", "        if v > 5:", "            raise ValueError('x')", "    finally:", "        _ok = v <= snapshot(3)",
+                                 "site(4)", "try:", "    site(8)", "except ValueError:", "    pass"],
+    "with-exit-both-paths": ["class CM:", "    def __enter__(self):", "        return self", "    def __exit__(self, *a):", "        self.ok = 5 == snapshot(4)", "        return True",
+                             "with CM():", "    pass", "with CM():", "    raise ValueError('x')"],
     "never-compared-star-list": ["v = [1, 2]", "s = snapshot([*v, 3+0])"],
     "never-compared-star-dict": ["v = {'a': 1}", "s = snapshot({**v, 'b': 2+0})"],
     "never-compared-star-call-args": ["v = [1, 2]", "s = snapshot(DC(*v))"],
